@@ -162,8 +162,8 @@ def instances(tier):
         for mo, mn in (((2, 1), (1, 2)), ((2, 2), (1, 2)), ((1, 2), (2, 1)), ((2, 2), (2, 1)), ((3, 1), (1, 3)), ((1, 3), (3, 1)),
                        ((2, 2), (3, 2)), ((3, 2), (2, 3)), ((2, 3), (3, 2))):
             for deg in (2, 100):
-                # six blocks on two axes: sizes <= 3 (with 4 the instance does not finish in 900 s)
-                out.append(inst_plan(mo, mn, deg, 3 if sum(mo) + sum(mn) >= 10 else 4, lim_max=32, thr_max=8))
+                # ten blocks on two axes: sizes <= 2 (with 3 some instances do not finish in 900 s on a loaded machine)
+                out.append(inst_plan(mo, mn, deg, 2 if sum(mo) + sum(mn) >= 10 else 4, lim_max=32, thr_max=8))
         for mo in range(1, 6):
             for mn in range(1, 6):
                 out.append(inst_crosswalk(mo, mn))
